@@ -160,7 +160,7 @@ PROPS["C06"] = {
                 # ast: the syntax trees of Model/CqlAst against the real scanner (rendering) and the real classifier (verdict)
                 {"name": "ast", "quick": 4000, "thorough": 300000}],
     "shrink": False,
-    "claim": "Lean theorems term_grammar_sound (by mutual induction over the syntax trees of the CQL term grammar - literals, bind markers, list/set/map/UDT/tuple literals to any depth, casts, calls: on the rendering of any term in any token context, with any fuel, the parser answers not-idempotent or has read exactly the term and the term holds no now()/uuid() call) insert_grammar_sound, update_grammar_sound, update_where_grammar_sound, delete_where_grammar_sound, batch_grammar_sound, insert_if_not_idempotent and counter_update_not_idempotent (every child of a batch of INSERTs; every INSERT … VALUES (terms) <any tail> and every UPDATE … SET c = term, … <tail>, through classify from the first token: verdict idempotent => no inserted / assigned value holds such a call); plain_term_accepted and plain_insert_accepted (the other direction: plain terms and plain INSERTs are read to their end and answered idempotent without error, given fuel for their size); Lean theorem no_verdict_dropped (for every token stream: verdict idempotent => no function term the classifier parsed, at any nesting depth and in every clause and batch child, was a call of now()/uuid(); ghost flag + preservation lemmas through all 30 parser functions); Lean theorems over the regenerated scanner tables + hand-written classifier model, for every token stream and every fuel: unparseable_false (error => not idempotent, by induction through all 25 parser functions), total, select_idempotent, ddl_use_not_idempotent, counter_batch_not_idempotent, if_clause_not_idempotent; soundness w.r.t. the documented rule, plain-mutation completeness and case/whitespace/terminator invariance are decided by the idem stream's ground-truth oracle (statements generated from a CQL grammar with truth attached by construction) - they are not theorems (a grammar-level classify_sound over ASTs was not attempted; no_verdict_dropped is the half of it that concerns the classifier's own traversal)",
+    "claim": "Lean theorems term_grammar_sound (by mutual induction over the syntax trees of the CQL term grammar - literals, bind markers, list/set/map/UDT/tuple literals to any depth, casts, calls: on the rendering of any term in any token context, with any fuel, the parser answers not-idempotent or has read exactly the term and the term holds no now()/uuid() call) insert_grammar_sound, update_grammar_sound, update_where_grammar_sound, delete_where_grammar_sound, batch_grammar_sound, insert_if_not_idempotent and counter_update_not_idempotent (every child of a batch of INSERTs; every INSERT … VALUES (terms) <any tail> and every UPDATE … SET c = term, … <tail>, through classify from the first token: verdict idempotent => no inserted / assigned value holds such a call); plain_term_accepted, plain_insert_accepted and plain_update_accepted (the other direction: plain terms, plain INSERTs and plain UPDATE assignments are read to their end and answered idempotent without error, given fuel for their size); Lean theorem no_verdict_dropped (for every token stream: verdict idempotent => no function term the classifier parsed, at any nesting depth and in every clause and batch child, was a call of now()/uuid(); ghost flag + preservation lemmas through all 30 parser functions); Lean theorems over the regenerated scanner tables + hand-written classifier model, for every token stream and every fuel: unparseable_false (error => not idempotent, by induction through all 25 parser functions), total, select_idempotent, ddl_use_not_idempotent, counter_batch_not_idempotent, if_clause_not_idempotent; soundness w.r.t. the documented rule, plain-mutation completeness and case/whitespace/terminator invariance are decided by the idem stream's ground-truth oracle (statements generated from a CQL grammar with truth attached by construction) - they are not theorems (a grammar-level classify_sound over ASTs was not attempted; no_verdict_dropped is the half of it that concerns the classifier's own traversal)",
     "note": "partial: grammar-level soundness over syntax trees is proved for terms, INSERT statements and the plain assignments of UPDATE statements (token level; the scanner's part - text to those tokens - is the ast stream's); WHERE clauses of the forms column-op-term and column-IN-terms, whole-row DELETEs and batches of INSERTs are covered too; for the other UPDATE operations and relation forms, DELETE selectors and batches with UPDATE / DELETE children it is checked by the ground-truth stream, not proved; no_verdict_dropped and the other theorems hold for arbitrary bytes. Trusted: Lean kernel, the goto-program translator + scanner interpreter (validated against the real lexer.next() on every run), hand-written parser model (validated against parser.IsQueryIdempotent on every run), the generator's ground truth",
     "rule": "ast: random syntax trees of Model/CqlAst written out as CQL text by the harness and as tokens by Term.render - real scanner tokens vs rendering, real verdict on INSERT INTO <table> (c) VALUES (<text>) vs the model's, verdict idempotent => Term.nonIdem = false. lex: the repo's own test strings, keyword case variants, truncations / single-byte mutations / random strings over a token-heavy alphabet incl. NUL, 0xFF and UTF-8, generated statements in random case/whitespace variants; compared: token kinds, end positions, identifier text. idem: statements from a type-directed CQL generator (INSERT incl. JSON, UPDATE, DELETE, BATCH logged/unlogged/counter, USING, WHERE relations of every shape, IF, nested list/set/map/UDT/tuple/cast/function terms to depth 4, system and user now()/uuid()), each with 3 meaning-preserving variants, plus truncated/mutated statements; oracles: unsound / plain-rejected / variant-changes-verdict / error-but-idempotent / panic; distinct = distinct texts",
     "trusted_base": [KERNEL, DRIVER, HARNESS, "Gen/LexTables.lean regenerated from parser/lexer.go by partial evaluation of the ragel goto program", "Model/Lexer.lean (60-line interpreter), Model/Parser.lean hand-written", "Model/CqlAst.lean (the term grammar and its rendering as tokens) hand-written, compared with the real scanner by the ast stream"],
